@@ -76,6 +76,12 @@ def lookalikes(quick):
 LOOKALIKES = lookalikes(False)
 
 
+def sweep_doc_text_only(cls, k):
+    """the class on a <text> that svgdx passes through (coordinate list / unit length / mixed content), nothing else in the document"""
+    t = ['<text x="2 8 14" y="5" class="%s">abc</text>', '<text x="1em" y="2" class="%s">unit</text>', '<text x="1" y="2" class="%s">a <tspan>b</tspan></text>'][k % 3]
+    return "<svg>\n  " + (t % cls) + "\n</svg>"
+
+
 def sweep_doc(cls):
     return ('<svg>\n  <rect xy="0 0" wh="20 10" class="%s" text="t"/>\n  <line xy1="0 20" xy2="20 20" class="%s"/>\n'
             '  <polyline points="0 30 10 35 20 30" class="%s"/>\n  <text xy="5 45" class="%s" text="x"/>\n</svg>') % (cls, cls, cls, cls)
@@ -351,6 +357,9 @@ def run_shard(ctx):
                 break
             case = dict(input=sweep_doc(cls).encode(), cfg=dict(theme=theme), classes=[cls], root=True, feats=[class_family(cls), "theme." + theme, "sweep"])
             check_case(ctx, case)
+            if cls.startswith("d-text") and theme in ("default", "dark"):
+                check_case(ctx, dict(input=sweep_doc_text_only(cls, k).encode(), cfg=dict(theme=theme), classes=[cls], root=True,
+                                     feats=[class_family(cls), "theme." + theme, "sweep.text-passthrough"]))
             if k in (17, 900):
                 acc.sample(dict(input=sweep_doc(cls), theme=theme))
     acc.count("vocabulary-size", len(vocab) if ctx.shard == 0 else 0)
